@@ -13,8 +13,22 @@ EXC = "JobShopSchedulingProblemException"
 
 
 # ------------------------------------------------------------------ oracles (the documented rules, on plain data)
+def _d(o):
+    """an operation's duration as an exact number (plain data holds an int or a [numerator, denominator] pair)"""
+    return jssp.num(o["dur"], "fraction") if isinstance(o["dur"], list) else o["dur"]
+
+
+def _t(st):
+    return jssp.num(st, "fraction") if isinstance(st, list) else st
+
+
+def integral(case_rows):
+    return all(not isinstance(o["dur"], list) and not isinstance(st, list) for _, entries in case_rows for o, st in entries)
+
+
 def spec_verdict(rows):
     """rows: general schedule (dict order). Returns (valid, makespan)."""
+    rows = [[j, [[dict(o, dur=_d(o)), _t(st)] for o, st in entries]] for j, entries in rows]
     flat = []
     for _, entries in rows:
         for o, st in entries:
@@ -32,7 +46,7 @@ def spec_verdict(rows):
 
 
 def spec_operation(o):
-    return o["name"] != "" and o["job"] != "" and o["dur"] >= 1
+    return o["name"] != "" and o["job"] != "" and _d(o) > 0
 
 
 def spec_job(j):
@@ -105,13 +119,15 @@ def g_answers(ans):
     return core.g_list(out)
 
 
-def impl_verdict(inst, rows):
+def impl_verdict(inst, rows, form="int", start_form="int", pi=None):
     from queasars.job_shop_scheduling.problem_instances import JobShopSchedulingProblemException, JobShopSchedulingResult
 
-    pi = jssp.impl_instance(inst)
-    res = JobShopSchedulingResult(pi, jssp.impl_general_schedule(rows))
+    pi = jssp.impl_instance(inst, form) if pi is None else pi
+    res = JobShopSchedulingResult(pi, jssp.impl_general_schedule(rows, form, start_form))
     valid = res.is_valid
     mk = res.makespan
+    if mk is not None and mk == int(mk):
+        mk = int(mk)
     try:
         vs = res.valid_schedule
         raises = False
@@ -197,6 +213,84 @@ def gen_verdict_case(rng):
     return inst, jssp.expand_sched(inst, sched)
 
 
+def gen_numeric_case(rng):
+    """a verdict case whose durations (and start times) are numpy integers or Fractions instead of plain ints"""
+    inst, rows = gen_verdict_case(rng)
+    form = rng.choice(["int64", "int32", "uint8", "uint32", "uint64", "fraction", "fraction"])
+    start_form = "int"
+    if form == "fraction":
+        # halves: durations k/2 (k = 1..6), start times partly half-integral
+        inst = json.loads(json.dumps(inst))
+        rows = json.loads(json.dumps(rows))
+        durs = {}
+        for j in inst["jobs"]:
+            for o in j["ops"]:
+                durs[(j["name"], o["name"])] = [rng.randint(1, 6), 2]
+                o["dur"] = durs[(j["name"], o["name"])]
+        for j, entries in rows:
+            for o in j["ops"]:
+                o["dur"] = durs[(j["name"], o["name"])]
+            for e in entries:
+                e[0]["dur"] = durs[(j["name"], e[0]["name"])]
+                if e[1] is not None and rng.random() < 0.5:
+                    e[1] = [2 * e[1] + rng.choice([0, 1]), 2]
+    else:
+        if form.startswith("u"):
+            for _, entries in rows:
+                for e in entries:
+                    if e[1] is not None and e[1] < 0:
+                        e[1] = 0
+        elif rng.random() < 0.5:
+            start_form = "int64"
+    return {"kind": "verdict", "inst": inst, "rows": rows, "form": form, "start_form": start_form}
+
+
+XPROC_CODE = r"""
+import sys, json, pickle, base64
+spec = json.loads(sys.stdin.read())
+sys.path[:] = [p for p in sys.path if "queasars" not in p.lower()]
+sys.path.insert(0, spec["repo"]); sys.path.insert(0, spec["harness"])
+import warnings; warnings.filterwarnings("ignore")
+from vlib import jssp
+out = []
+for inst in spec["items"]:
+    pi = jssp.impl_instance(inst)
+    # use the objects the way a program does before shipping them: as dict keys and set members
+    _ = {job: len(job.operations) for job in pi.jobs}; _ = {op for job in pi.jobs for op in job.operations}; _ = set(pi.machines); hash(pi)
+    out.append(base64.b64encode(pickle.dumps(pi)).decode())
+sys.stdout.write("XPROC-BEGIN" + json.dumps(out) + "XPROC-END")
+"""
+XPROC_CACHE = {}
+
+
+def xproc_load(cases):
+    """ONE subprocess per hash seed builds, hashes and pickles the instances of all given cases"""
+    import base64
+    import os
+    import pickle
+    import subprocess
+
+    by_seed = {}
+    for c in cases:
+        by_seed.setdefault(c["hashseed"], []).append(c)
+    for hs, cs in by_seed.items():
+        env = dict(os.environ, PYTHONHASHSEED=str(hs), PYTHONWARNINGS="ignore")
+        p = subprocess.run(["/venv/bin/python", "-c", XPROC_CODE], input=json.dumps(dict(repo=str(core.REPO), harness=str(core.ROOT / "harness"), items=[c["inst"] for c in cs])),
+                           capture_output=True, text=True, env=env, timeout=600)
+        if "XPROC-BEGIN" not in p.stdout:
+            raise RuntimeError("cross-process producer failed: " + (p.stderr or p.stdout)[-1500:])
+        blobs = json.loads(p.stdout.split("XPROC-BEGIN")[1].split("XPROC-END")[0])
+        for c, b in zip(cs, blobs):
+            XPROC_CACHE[json.dumps([c["inst"], c["hashseed"]], sort_keys=True)] = pickle.loads(base64.b64decode(b))
+
+
+def xproc_instance(ctx, case):
+    k = json.dumps([case["inst"], case["hashseed"]], sort_keys=True)
+    if k not in XPROC_CACHE:
+        xproc_load([case])  # replay of a single case
+    return XPROC_CACHE[k]
+
+
 NAMES = ["", "a", "b", "a_b", "é\"x"]
 # names that are different strings (so different machines / jobs / operations by the documented rules, which speak of names)
 # but that a normalising comparison (case folding, stripping, unicode normalisation) would identify
@@ -225,7 +319,7 @@ def gen_confusable_instance(rng):
 
 
 def gen_ctor_case(rng):
-    kind = rng.choice(["machine", "operation", "job", "instance", "result", "result", "confusable", "confusable-job"])
+    kind = rng.choice(["machine", "operation", "operation-numeric", "job", "instance", "result", "result", "confusable", "confusable-job"])
     if kind == "confusable":
         return "instance", gen_confusable_instance(rng)
     if kind == "confusable-job":
@@ -236,6 +330,11 @@ def gen_ctor_case(rng):
         return kind, rng.choice(NAMES + [" "])
     if kind == "operation":
         return kind, {"name": rng.choice(NAMES), "job": rng.choice(NAMES), "machine": rng.choice(["m0", "m1"]), "dur": rng.choice([-2, 0, 1, 1, 2, 5])}
+    if kind == "operation-numeric":
+        # durations given as numpy integers or Fractions (incl. values strictly between 0 and 1, zero and negative ones)
+        form = rng.choice(["int64", "uint8", "uint32", "fraction", "fraction", "fraction"])
+        dur = rng.choice([[1, 2], [1, 4], [3, 2], [0, 1], [-1, 2], [5, 1], [1, 1000]]) if form == "fraction" else rng.choice([0, 1, 2, 5, 255] if form.startswith("u") else [-2, 0, 1, 2, 5])
+        return "operation", {"name": "x", "job": "a", "machine": "m0", "dur": dur, "_form": form}
     if kind == "job":
         jn = rng.choice(["", "a", "a", "a", "a_b"])
         ops = []
@@ -280,18 +379,30 @@ def gen_ctor_case(rng):
 # ------------------------------------------------------------------ one case -> (impl answer, oracle verdicts, gallina)
 def do_case(ctx, case):
     kind = case["kind"]
-    if kind == "verdict":
+    if kind in ("verdict", "xproc"):
         inst, rows = case["inst"], case["rows"]
+        form, start_form, pi = case.get("form", "int"), case.get("start_form", "int"), None
+        if kind == "xproc":
+            try:
+                pi = xproc_instance(ctx, case)
+            except Exception as e:
+                ctx.violation("oracle", f"xproc-setup-{type(e).__name__}", f"an instance pickled in another process (PYTHONHASHSEED={case['hashseed']}) could not be used: {str(e)[:300]}", case)
+                return None
+            local = jssp.impl_instance(inst)
+            if not (pi == local and hash(pi) == hash(local) and all(a == b and hash(a) == hash(b) and a in {b} for a, b in zip(pi.jobs, local.jobs))):
+                ctx.violation("oracle", "xproc-unpickled-not-equal", f"an instance unpickled from another process (PYTHONHASHSEED={case['hashseed']}) does not equal / hash like / look up like the same instance built here", case)
         try:
-            valid, mk, raises = impl_verdict(inst, rows)
+            valid, mk, raises = impl_verdict(inst, rows, form, start_form, pi)
         except Exception as e:
-            ctx.violation("oracle", f"verdict-exception-{type(e).__name__}", f"verdict computation raised {type(e).__name__}: {e}", case)
+            ctx.violation("oracle", f"verdict-exception-{type(e).__name__}", f"verdict computation raised {type(e).__name__}: {e}" + (f" (durations as {form}, start times as {start_form})" if (form, start_form) != ("int", "int") else "") + (" (instance unpickled from another process, schedule built here)" if kind == "xproc" else ""), case)
             return None
         sv, sm = spec_verdict(rows)
         if (bool(valid), mk, raises) != (sv, sm, not sv):
             what = "is_valid" if bool(valid) != sv else ("makespan" if mk != sm else "valid_schedule accessor")
             ctx.violation("oracle", f"verdict-{what.split()[0]}", f"{what} disagrees with the JSSP definition: impl valid={valid} makespan={mk} accessor_raises={raises}, definition valid={sv} makespan={sm}", case)
-        ctx.tally("verdict:valid" if sv else "verdict:invalid")
+        ctx.tally(("verdict:valid" if sv else "verdict:invalid") + (f":dur={form}:start={start_form}" if (form, start_form) != ("int", "int") else "") + (":xproc" if kind == "xproc" else ""))
+        if not integral(rows):
+            return None  # non-integral durations / start times: the Z model does not apply, the oracle decides
         return f"CVerdict {jssp.g_inst(inst)} {jssp.g_general_sched(rows)} {g_bool(valid)} {g_opt(None if mk is None else g_z(mk))} {g_bool(raises is True)}"
     if kind == "stored":
         inst, rows = case["inst"], case["rows"]
@@ -326,8 +437,21 @@ def do_case(ctx, case):
         acc, odd = impl_accepts(lambda: Machine(arg))
         spec, g = arg != "", f"CMachine {g_str(arg)}"
     elif kind == "operation":
-        acc, odd = impl_accepts(lambda: Operation(arg["name"], arg["job"], Machine(arg["machine"]), arg["dur"]))
-        spec, g = spec_operation(arg), f"COperation {jssp.g_op(arg)}"
+        form = case.get("form", "int")
+        given = jssp.num(arg["dur"], form)
+        made = []
+        acc, odd = impl_accepts(lambda: made.append(Operation(arg["name"], arg["job"], Machine(arg["machine"]), given)))
+        spec = spec_operation(arg)
+        g = f"COperation {jssp.g_op(arg)}" if not isinstance(arg["dur"], list) else None
+        if acc and made:
+            op = made[0]
+            back = (op.name, op.job_name, op.machine.name, op.processing_duration)
+            if back != (arg["name"], arg["job"], arg["machine"], given):
+                ctx.violation("oracle", "ctor-operation-field-changed", f"the accepted Operation holds {back!r}, it was constructed from {(arg['name'], arg['job'], arg['machine'], given)!r}", case)
+            elif not op.processing_duration > 0:
+                ctx.violation("oracle", "ctor-operation-nonpositive-duration", f"accepted Operation has duration {op.processing_duration!r}", case)
+        if form != "int":
+            ctx.tally(f"operation:dur={form}")
     elif kind == "job":
         acc, odd = impl_accepts(lambda: jssp.impl_job(arg))
         spec, g = spec_job(arg), f"CJob {jssp.g_job(arg)}"
@@ -340,11 +464,15 @@ def do_case(ctx, case):
         acc, odd = impl_accepts(lambda: JobShopSchedulingResult(pi, jssp.impl_general_schedule(rows)))
         spec, g = spec_result(inst, rows), f"CResult {jssp.g_inst(inst)} {jssp.g_general_sched(rows)}"
     ctx.tally(f"{kind}:{'accept' if spec else 'reject'}")
+    if g is None:
+        g_ret = None
+    else:
+        g_ret = f"{g} {g_bool(acc)}"
     if odd:
         ctx.violation("oracle", f"ctor-{kind}-{odd}", f"{kind} constructor raised {odd} instead of the documented exception", case)
     elif acc != spec:
         ctx.violation("oracle", f"ctor-{kind}-{'accepts-malformed' if acc else 'rejects-wellformed'}", f"{kind} constructor {'accepts' if acc else 'rejects'} data the documented rules {'reject' if acc else 'accept'}", case)
-    return f"{g} {g_bool(acc)}"
+    return g_ret
 
 
 def exhaustive_small(ctx):
@@ -360,7 +488,7 @@ def exhaustive_small(ctx):
 def run(ctx):
     translate.check_link(ctx, "C19")  # regenerate Gallina from /repo's current source; link lemmas coq/link/C19Link.v
     ctx.rule = ("random valid instances (1-3 jobs, 1-3 machines) x start assignments from {unscheduled,-1..7} (half near-feasible), dict order shuffled; "
-                "accepted results re-read per key (result.schedule[k], valid_schedule[k]) with the caller's mapping in permuted key order; constructor arguments from a small malformed alphabet incl. names that differ only by case / blanks / unicode normal form; distinct = distinct (kind, data); non-trivial = verdict cases with >=2 operations, constructor cases always")
+                "durations / start times also as numpy integers (int32/int64/uint8/uint32/uint64) and Fractions (oracle only where non-integral); instances built, hashed and pickled in ANOTHER process (different PYTHONHASHSEED) combined with schedules built here; accepted results re-read per key (result.schedule[k], valid_schedule[k]) with the caller's mapping in permuted key order; constructor arguments from a small malformed alphabet incl. names that differ only by case / blanks / unicode normal form; distinct = distinct (kind, data); non-trivial = verdict cases with >=2 operations, constructor cases always")
     cases = []
     cdir = core.ROOT / "corpus" / "C19"
     for f in sorted(cdir.glob("*.json")) if cdir.exists() else []:
@@ -382,14 +510,29 @@ def run(ctx):
         cases.append({"kind": "stored", "inst": inst, "rows": rows})
     for _ in range(ctx.n(500, 8000)):
         k, arg = gen_ctor_case(ctx.rng)
-        cases.append({"kind": k, "arg": arg})
+        c = {"kind": k, "arg": arg}
+        if isinstance(arg, dict) and "_form" in arg:
+            c["form"] = arg.pop("_form")
+        cases.append(c)
+    for _ in range(ctx.n(200, 3000)):
+        cases.append(gen_numeric_case(ctx.rng))
+    xp = []
+    for _ in range(ctx.n(24, 300)):
+        inst, rows = gen_verdict_case(ctx.rng)
+        xp.append({"kind": "xproc", "inst": inst, "rows": rows, "hashseed": ctx.rng.choice([1, 4242])})
+    try:
+        xproc_load(xp)  # one subprocess per hash seed for the whole batch
+    except Exception as e:
+        ctx.violation("oracle", f"xproc-setup-{type(e).__name__}", f"the cross-process producer failed: {str(e)[:400]}", xp[0])
+        xp = []
+    cases += xp
     if not ctx.quick:
         cases += list(exhaustive_small(ctx))
         ctx.notes["exhaustive_small_scope"] = "all 5^4 start assignments x 2 duration patterns of the crossed 2x2 instance"
     glits, kept = [], []
     for c in cases:
         g = do_case(ctx, c)
-        nontriv = c["kind"] not in ("verdict", "queries", "stored") or sum(len(e) for _, e in c["rows"]) >= 2
+        nontriv = c["kind"] not in ("verdict", "queries", "stored", "xproc") or sum(len(e) for _, e in c["rows"]) >= 2
         ctx.case(c, nontriv, sample=c if len(ctx.samples) < 3 or (c["kind"] != "verdict" and len(ctx.samples) < 5) else None)
         if g is not None:
             glits.append(g)
